@@ -26,6 +26,7 @@ import (
 	"math/rand"
 	"os"
 	"runtime"
+	"runtime/debug"
 	"sort"
 	"strconv"
 	gosync "sync"
@@ -78,13 +79,24 @@ func c08Deadline() time.Duration {
 	return 20 * time.Second
 }
 
-// lock word as a JSON-safe int (TLC's JSON reader turns integers >= 2^31 into 0)
+// The only lock-word value with a fixed meaning is 0 = free (the zero value of the struct); how "held" is
+// encoded is the implementation's business.  The trace therefore carries the class of the word, not the word:
+// 0 free, 1 non-zero (this also keeps it clear of the JSON reader's 2^31 limit).
 func c08LockWord(l *Spinlock) int {
-	v := atomic.LoadUint32(&l.state)
-	if v > 0x3fffffff {
-		return 0x3fffffff
+	if atomic.LoadUint32(&l.state) == 0 {
+		return 0
 	}
-	return int(v)
+	return 1
+}
+
+// An assembly routine with a frame of its own has no stack maps; a garbage collection (or stack copy) that
+// finds a goroutine parked inside it - it calls yieldFn = runtime.Gosched - aborts the process.  That is an
+// artefact of running the kernel's lock under the hosted runtime, so the collector only runs at points
+// where no goroutine is inside a lock operation.
+func c08QuiescentGC(n int) {
+	if n%256 == 255 {
+		runtime.GC()
+	}
 }
 
 // ---------------------------------------------------------------- leg G
@@ -318,6 +330,7 @@ func (cs *c08Case) finish() bool {
 func TestVerifC08Sched(t *testing.T) {
 	defer func(f func()) { yieldFn = f }(yieldFn)
 	yieldFn = runtime.Gosched
+	defer debug.SetGCPercent(debug.SetGCPercent(-1))
 	in, err := os.Open(os.Getenv("CASES"))
 	if err != nil {
 		t.Fatal(err)
@@ -370,7 +383,11 @@ func TestVerifC08Sched(t *testing.T) {
 		cs.emit(c08Ev{K: "nb", N0: nb0, N1: c08Neighbour(cs.cell)})
 		cs.emit(c08Ev{K: "reset"})
 		ncases++
-		if !good || !cs.finish() {
+		fin := cs.finish()
+		if good && fin {
+			c08QuiescentGC(ncases) // every goroutine of the case has ended
+		}
+		if !good || !fin {
 			// a goroutine is lost inside the lock: stop, the runner reports "inconclusive"
 			// unless the events written so far already contradict the specification
 			enc.Encode(c08Ev{K: "stuck"})
@@ -385,6 +402,7 @@ func TestVerifC08Sched(t *testing.T) {
 func TestVerifC08Stress(t *testing.T) {
 	defer func(f func()) { yieldFn = f }(yieldFn)
 	yieldFn = runtime.Gosched
+	defer debug.SetGCPercent(debug.SetGCPercent(-1))
 	seed, _ := strconv.ParseInt(os.Getenv("VERIF_SEED"), 10, 64)
 	nwin, _ := strconv.Atoi(os.Getenv("NWIN"))
 	nops, _ := strconv.Atoi(os.Getenv("NOPS"))
@@ -555,6 +573,7 @@ func TestVerifC08Stress(t *testing.T) {
 		enc.Encode(c08Ev{K: "nb", N0: nb0, N1: c08Neighbour(cell)})
 		enc.Encode(c08Ev{K: "reset"})
 		total += len(evs) + 2
+		c08QuiescentGC(w*16 + 15) // all threads of the window have been joined
 	}
 	os.Stdout.WriteString("VERIF-STATS windows=" + strconv.Itoa(nwin) + " events=" + strconv.Itoa(total) + "\n")
 }
